@@ -333,6 +333,20 @@ def main(tier=None):
                 if not any(a <= pos <= bb for a, bb, ln, op in im[k]): continue
                 for cl in (('MPI_ERR_NO_SPACE', 'MPI_ERR_IO') if thorough else ('MPI_ERR_NO_SPACE',)):
                     fl.append((p, np_, k, pos, c11.mkcase(p, np_, (k, pos, c11.CLASSES[cl]), '-led-r%d-p%d-%s' % (k, pos, cl), ledger=True), None))
+    # ---- the same programs with the failure injected into an MPI_File_set_view call instead (case option injview=1: the injectable
+    # calls of a case are then its set_view calls and only those; the view is set all the same and the caller is told it failed):
+    # every set_view call of every process, one at a time
+    ffv = [(p, np_, c11.mkcase(p, np_, ledger=True, injview=True)) for p in c11.PROGRAMS for np_ in fnps]
+    fresv = runner.run_cases(b['vx'], [x[2] for x in ffv], batch=8)
+    nview = 0
+    for (p, np_, c), r in zip(ffv, fresv):
+        ck.cov['evaluations'] += 1; trans += 1
+        if r.status != 'ok': continue
+        for k in range(np_):
+            for pos in range(1, int(r.end[k].get('inj', 0)) + 1):
+                nview += 1
+                fl.append((p, np_, k, pos, c11.mkcase(p, np_, (k, pos, c11.CLASSES['MPI_ERR_NO_SPACE']), '-led-view-r%d-p%d' % (k, pos), ledger=True, injview=True), None))
+    ck.cov['set_view_fault_runs'] = nview
     todo = [x for x in fl if x[5] is None]
     fres = iter(runner.run_cases(b['vx'], [x[4] for x in todo], batch=40))
     nfault = 0
@@ -426,7 +440,7 @@ def main(tier=None):
     ck.cov.update(states=states, transitions=trans, traces_validated_against_impl=trans, max_depth=maxd, completed_depth=completed, distinct_nontrivial=states,
                   rule='BFS over {create/open of 3 paths (+ non-netCDF file, missing file, NC_NOCLOBBER), 10 per-file ops incl. close/abort on every id ever returned and on -1, 1023, 1024, 10^6}; '
                        'state = (open id table with per-file reference model, files on disk); after every transition each open file is swept against its own model, all files are closed and the '
-                       'malloc/MPI-object ledger must be zero; plus the NC_MAX_NFILES boundary case; plus every way of leaving a file (close, abort, abort after redef, from independent mode, close / abort of a new file still in its first define mode) with iput / iget / bput / iput_varn / converting requests still pending on 1-3 processes: NC_EPENDING, id invalid afterwards, ledger zero; plus every way a request leaves the queue (wait / cancel by id, by ALL, by kind; refused at posting for lack of buffer space or bad coordinates) x requests owning MPI objects (non-contiguous buffer type of a read, true imap, conversion, buffered) in collective and independent mode: nothing pending, close succeeds, ledger zero; plus the fault programs of C11 (every write and read path, header and record-count I/O, redefinition, fill, open) with one I/O failure injected at every injectable call of every process: after the program has closed its files the ledger is zero; plus cycles of create / reopen / abort / close of files with and without variables while another file is open: the number of open POSIX descriptors of every process is the same before and after; plus opens of files with a valid signature and a header broken further down (9 grammar violations, 3 truncations, 2 formats) while another file is open: the other file stays usable and the ledger returns to zero')
+                       'malloc/MPI-object ledger must be zero; plus the NC_MAX_NFILES boundary case; plus every way of leaving a file (close, abort, abort after redef, from independent mode, close / abort of a new file still in its first define mode) with iput / iget / bput / iput_varn / converting requests still pending on 1-3 processes: NC_EPENDING, id invalid afterwards, ledger zero; plus every way a request leaves the queue (wait / cancel by id, by ALL, by kind; refused at posting for lack of buffer space or bad coordinates) x requests owning MPI objects (non-contiguous buffer type of a read, true imap, conversion, buffered) in collective and independent mode: nothing pending, close succeeds, ledger zero; plus the fault programs of C11 (every write and read path, header and record-count I/O, redefinition, fill, open) with one I/O failure injected at every injectable call of every process: after the program has closed its files the ledger is zero; plus the same programs with the failure injected into every MPI_File_set_view call of every process instead (case option injview=1), same ledger oracle; plus cycles of create / reopen / abort / close of files with and without variables while another file is open: the number of open POSIX descriptors of every process is the same before and after; plus opens of files with a valid signature and a header broken further down (9 grammar violations, 3 truncations, 2 formats) while another file is open: the other file stays usable and the ledger returns to zero')
     ck.assumptions += ['depth bound %d, np=1' % maxdepth]
     runner.cleanup()
     return ck.finish(min_eval=200, min_outcomes=15)
